@@ -150,3 +150,59 @@ Proof.
   { apply forallb_forall. intros f Hf. apply wf_in_range. apply (HG f Hf). }
   rewrite R. reflexivity.
 Qed.
+
+(* ---------- annotated formulas and specifications ---------- *)
+Lemma role_of_role_tok r : role_of_tok (role_tok r) = Some r.
+Proof. destruct r; reflexivity. Qed.
+
+Lemma direction_of_str d : direction_of_word (direction_str d) = Some d.
+Proof. destruct d; reflexivity. Qed.
+Lemma peg_direction_ok d X : no_lparen X ->
+  peg_direction ((if is_universal d then [] else [TLParen; TWord (direction_str d); TRParen]) ++ X) = (d, X).
+Proof.
+  intros HX. destruct d; cbn [is_universal app].
+  - unfold peg_direction. destruct X as [|[] X]; cbn in HX; try tauto; reflexivity.
+  - unfold peg_direction. rewrite direction_of_str. reflexivity.
+  - unfold peg_direction. rewrite direction_of_str. reflexivity.
+Qed.
+Lemma peg_name_ok n Y : peg_name ((if is_empty n then [] else [TLBrack; TWord n; TRBrack]) ++ TColon :: Y) = (n, TColon :: Y).
+Proof. destruct n; reflexivity. Qed.
+
+Lemma peg_annot_ok a fuel R : fsize (an_formula a) + 3 < fuel -> fgood (an_formula a) ->
+  peg_annot fuel (print_annot false a ++ TDot :: R) = Ok a (TDot :: R).
+Proof.
+  intros Hf HG. destruct a as [ro d n F]. cbn [an_role an_dir an_name an_formula print_annot tsp app] in *.
+  unfold peg_annot. rewrite role_of_role_tok. rewrite <- !app_assoc.
+  rewrite peg_direction_ok by (destruct (is_empty n); exact I).
+  cbn [app]. rewrite peg_name_ok.
+  rewrite formula_rt; [reflexivity|exact Hf|exact HG|apply ffollow_dot].
+Qed.
+
+Lemma peg_annot_nil fuel : peg_annot fuel [] = Fail.
+Proof. reflexivity. Qed.
+
+Definition sgood (s : specification) : Prop := forall a, In a s -> fgood (an_formula a).
+
+Lemma print_spec_dotted s : print_spec false s = pdotted (print_annot false) s.
+Proof. induction s as [|a s IH]; [reflexivity|]. cbn [print_spec tnl app pdotted flat_map]. fold (pdotted (print_annot false) s). rewrite IH, <- app_assoc. reflexivity. Qed.
+
+Lemma print_annot_length a : List.length (print_formula false (an_formula a)) <= List.length (print_annot false a).
+Proof. destruct a as [ro d n F]. unfold print_annot. cbn [an_formula]. rewrite !app_length. lia. Qed.
+
+Theorem spec_rt s : sgood s -> parse_spec_toks (print_spec false s) = PR_ok s.
+Proof.
+  intros HG. unfold parse_spec_toks. rewrite print_spec_dotted.
+  set (ts := pdotted (print_annot false) s).
+  assert (E : peg_dotted peg_annot (fuel_of ts) ts = Ok s []).
+  { apply (dotted_ok peg_annot (print_annot false) (fun a => fsize (an_formula a) + 3) (fun a => fgood (an_formula a))).
+    - intros a fuel R Ga Hf. apply peg_annot_ok; assumption.
+    - intros fuel _. apply peg_annot_nil.
+    - exact HG.
+    - intros a Ha. pose proof (fuel_of_ge ts). pose proof (pdotted_length_ge (print_annot false) s a Ha).
+      pose proof (fsize_tokens (an_formula a)). pose proof (print_annot_length a). fold ts in H0. lia.
+    - pose proof (fuel_of_ge ts). lia. }
+  rewrite E. cbn [finish].
+  assert (R : forallb (fun a => formula_in_range (an_formula a)) s = true).
+  { apply forallb_forall. intros a Ha. apply wf_in_range. apply (HG a Ha). }
+  rewrite R. reflexivity.
+Qed.
